@@ -51,6 +51,7 @@ var defaultStubs = []struct {
 	{"strconv.FormatInt", StubSpec{"intrinsic", "fmt.format"}},
 	{"strconv.Quote", StubSpec{"intrinsic", "opaque.string"}},
 	// canopy environment model (DESIGN §3); a harness can switch any of these back with "real"
+	{"google.golang.org/protobuf/proto.Clone", StubSpec{"intrinsic", "proto.Clone"}},
 	{"github.com/canopy-network/canopy/lib.Marshal", StubSpec{"intrinsic", "box.Marshal"}},
 	{"github.com/canopy-network/canopy/lib.Unmarshal", StubSpec{"intrinsic", "box.Unmarshal"}},
 	{"github.com/canopy-network/canopy/lib/crypto.Hash", StubSpec{"intrinsic", "hash32"}},
